@@ -28,7 +28,7 @@ type Case struct {
 	Seed    uint64 `json:"seed"`
 }
 
-const maxLen = 8<<20 + 4096
+const maxLen = 32<<20 + 4096
 
 type arena struct {
 	mem     []byte
@@ -420,9 +420,9 @@ func TestCheck(t *testing.T) {
 	}
 
 	// (3b) multi-MiB lengths (kernels that process long buffers in pieces)
-	huge := []int{1 << 20, 1<<20 + 2, 1 << 22, 1<<22 - 2, 1<<22 + 2, 3 << 20}
+	huge := []int{1 << 20, 1<<20 + 2, 1 << 22, 1<<22 - 2, 1<<22 + 2, 3 << 20, 1 << 24}
 	if cfg.Thorough() {
-		huge = append(huge, 1<<23, 1<<23-32, 1<<21, 5<<20)
+		huge = append(huge, 1<<23, 1<<23-32, 1<<21, 5<<20, 1<<25, 1<<24+32, 3<<23)
 	}
 	for hi, n := range huge {
 		for _, p := range paths {
@@ -430,7 +430,7 @@ func TestCheck(t *testing.T) {
 				if !mine() {
 					continue
 				}
-				do(Case{Path: p, Op: op, C: uint16(0x3c5a + hi), N: n, AIn: (hi * 8) % 64, AOut: (hi * 24) % 64, AtEnd: true, Fill: "rand", Seed: uint64(n + hi)})
+				do(Case{Path: p, Op: op, C: uint16(0x3c5a + hi), N: n, AIn: (hi * 8) % 64, AOut: (hi*24 + hi%2) % 64, AtEnd: true, Fill: "rand", Seed: uint64(n + hi)})
 			}
 		}
 	}
